@@ -479,9 +479,16 @@ func loadFailure(t *testing.T, path string) (*Failure, *Engine, any) {
 	return &f, eng, sc
 }
 
+// shrinkKnown: open known findings; a minimisation candidate whose failure has turned into
+// a listed finding is not "the same failure" any more.
+var (
+	shrinkKnown  []KnownFinding
+	shrinkEngine string
+)
+
 func hasRule(v Verdict, rule string) bool {
 	for _, x := range v.Viol {
-		if x.Rule == rule {
+		if x.Rule == rule && matchKnown(shrinkKnown, shrinkEngine, x) == "" {
 			return true
 		}
 	}
@@ -494,6 +501,7 @@ func hasRule(v Verdict, rule string) bool {
 // variant only while the same rule of the same property still fails.
 func workerShrink(t *testing.T) {
 	f, eng, sc := loadFailure(t, os.Getenv("SIM_IN"))
+	shrinkKnown, shrinkEngine = loadKnown(t, os.Getenv("SIM_KNOWN")), f.Engine
 	budget := int(envInt("SIM_SHRINK_BUDGET", 800))
 	list := f.Choices.dense()
 
@@ -723,6 +731,7 @@ type ReplayReport struct {
 
 func workerReplay(t *testing.T) {
 	f, eng, sc := loadFailure(t, os.Getenv("SIM_IN"))
+	shrinkKnown, shrinkEngine = loadKnown(t, os.Getenv("SIM_KNOWN")), f.Engine
 
 	ch := simrt.ReplayChoices(f.Choices.dense(), f.PickByPrio, f.PrioSeed)
 	res, v := executeOnce(t, eng, f.Property, sc, ch, true)
